@@ -71,6 +71,13 @@ public:
 
     ~XalanArrayAllocator()
     {        
+        // begin() would allocate the head node of a list that
+        // was never used.
+        if (m_list.empty() == true)
+        {
+            return;
+        }
+
         typename ListType::iterator iter = m_list.begin();
 
         MemoryManager& theManager = m_list.getMemoryManager();
